@@ -9,6 +9,7 @@ import PyGqlModel.Lemmas.LexChars
 import PyGqlModel.Lemmas.LexTiles
 import PyGqlModel.Lemmas.LexComplete
 import PyGqlModel.Lemmas.LexCompleteBlock
+import PyGqlModel.Lemmas.LexLookahead
 
 namespace PyGql.Props.C01
 open PyGql.Lex PyGql.StringUtils
@@ -291,6 +292,43 @@ theorem lex_ignored_invariant (s₁ s₂ : Text) (toks₁ body₂ : List Tok) (h
 /-- non-vacuity: `{a 1.5}` and ` { ,a #c<CR>1.5}` have the same tokens up to positions -/
 example : ((lexAll [123, 97, 32, 49, 46, 53, 125]).toOption.map (·.map kv)) =
     ((lexAll [32, 123, 32, 44, 97, 32, 35, 99, 13, 49, 46, 53, 125]).toOption.map (·.map kv)) := by decide
+
+/-! ### the number look-ahead restriction (known finding LA1: not in the June-2018 lexical grammar, pinned by
+    tests/test_lang/test_lexer.py::test_useful_number_errors — `1.2e3e`, `0xF1`, `0b10`, `123abc`, `1_234`, `1.23f`, `1.234_5`)
+
+    The specification side of `lex_sound` / `lex_render` carries the restriction EXPLICITLY: it is the `isNameStart` clause
+    of `Spec.Lexical.Follow` for `.int` / `.float`. The two theorems below isolate it. -/
+
+/-- what the June-2018 grammar read literally would give: a number lexeme directly followed by a name lexes like the same
+    text with a space in between (IntValue / FloatValue have no look-ahead restriction before October 2021) -/
+def June2018GluedNumberStatement : Prop :=
+  ∀ (lex : Text) (c : Nat) (t : Text) (toks : List Tok),
+    (Spec.Lexical.isIntValue lex = true ∨ Spec.Lexical.isFloatValue lex = true) →
+    Spec.Lexical.isNameStart c = true → c ≠ 101 → c ≠ 69 →
+    lexAll (lex ++ 32 :: c :: t) = .ok toks →
+    ∃ toks', lexAll (lex ++ c :: t) = .ok toks' ∧ toks'.map kv = toks.map kv
+
+/-- `number_lookahead_pinned`: on today's code EVERY IntValue / FloatValue lexeme directly followed by a NameStart
+    character (other than an exponent indicator `e` / `E`) is rejected, with `UnexpectedCharacter` at that character —
+    never lexed as number + name. -/
+theorem number_lookahead_pinned (lex : Text) (c : Nat) (t : Text)
+    (hl : Spec.Lexical.isIntValue lex = true ∨ Spec.Lexical.isFloatValue lex = true)
+    (hc : Spec.Lexical.isNameStart c = true) (he : c ≠ 101 ∧ c ≠ 69) :
+    lexAll (lex ++ c :: t) = .error ⟨.unexpectedCharacter, lex.length⟩ := by
+  have h := next_number_glued (lex ++ c :: t).length lex c t (numShape_of_number lex hl) hc he
+  unfold lexAll
+  simp only [lexLoop, h]
+  simp [posAt]
+
+/-- refutation of the literal June-2018 reading, witness `1a` vs `1 a` (replay: `parse_value("[1a]")`) -/
+theorem june2018_glued_number_refuted : ¬ June2018GluedNumberStatement := by
+  intro h
+  obtain ⟨toks', h', _⟩ := h [49] 97 [] _ (Or.inl (by decide)) (by decide) (by decide) (by decide)
+    (show lexAll [49, 32, 97] = .ok [sofTok, ⟨.int, 0, 1, [49]⟩, ⟨.name, 2, 3, [97]⟩, eofTok 3] by rfl)
+  have : lexAll [49, 97] = .error ⟨.unexpectedCharacter, 1⟩ := by rfl
+  simp only [List.cons_append, List.nil_append] at h'
+  rw [this] at h'
+  cases h'
 
 /-- THE FULL STATEMENT of the property's error clause for the lexer: every syntax error reports a
     position inside the submitted text. It is FALSE on today's code (see `error_in_range_refuted`). -/
